@@ -2,19 +2,19 @@ SPECIFICATION MCSpec
 CONSTANTS
   Groups = {"g1"}
   GroupOnFollower = FALSE
-  OnlyOpenEnded = FALSE
+  OnlyOpenEnded = TRUE
   CleanupById = FALSE
-  Consumers = {"c1", "c2"}
-  MaxEpoch = 2
-  MaxSubs = 3
-  MaxOps = 5
+  Consumers = {"c1", "c2", "c3"}
+  MaxEpoch = 3
+  MaxSubs = 4
+  MaxOps = 7
   UsePlain = FALSE
   UseBurst = FALSE
   UseFollower = TRUE
   UseBounded = TRUE
   C0 = "c1"
-  UseBad = TRUE
-INVARIANTS TypeOK C13_OneActive ActiveRegistered RegOK
+  UseBad = FALSE
+INVARIANTS C13_OneActive
 PROPERTIES StepsOK
 VIEW MCView
 CHECK_DEADLOCK FALSE
